@@ -6,6 +6,7 @@ import (
 	"sort"
 	"strconv"
 	"strings"
+	"time"
 	"unicode/utf8"
 
 	"github.com/pentops/j5/gen/test/schema/v1/schema_testpb"
@@ -106,9 +107,18 @@ func loadFixedTargets() ([]*target, error) {
 	return ts, nil
 }
 
+// byte strings of the cases files are written packed (lib/Pack.v): Coq reads them several times faster
+// and long documents no longer overflow coqc's stack
+func init() {
+	codecgen.Packed = true
+	// the process's local time zone is not UTC: "timestamps as RFC3339 in UTC" must hold whatever
+	// time.Local is (time.Unix returns local times)
+	time.Local = time.FixedZone("VERIF+1030", 10*3600+1800)
+}
+
 func envHeader(ts []*target) string {
 	var sb strings.Builder
-	sb.WriteString("From Coq Require Import String List NArith ZArith.\nFrom J5V.lib Require Import Json.\nFrom J5V.model Require Import CodecTypes CodecEnc CodecEncCorr.\nImport ListNotations.\nLocal Open Scope N_scope.\n")
+	sb.WriteString("From Coq Require Import String List NArith ZArith.\nFrom Coq Require Import Uint63.\nFrom J5V.lib Require Import Json Pack.\nFrom J5V.model Require Import CodecTypes CodecEnc CodecEncCorr.\nImport ListNotations.\nLocal Open Scope N_scope.\n")
 	for _, t := range ts {
 		fmt.Fprintf(&sb, "Definition %s : env := %s.\n", t.Name, t.Env.Coq())
 	}
